@@ -173,8 +173,10 @@ HELPERS = {  # command -> (class name, model code)
     "doexe": ("Doexe", "i"), "dolib.so": ("Dolib_so", "i"), "doins": ("Doins", "r"), "dodoc": ("Dodoc", "d"),
     "doinfo": ("Doinfo", "n"), "dodir": ("Dodir", "D"), "docompress": ("Docompress", "A"),
     "dostrip": ("Dostrip", "A"), "has_version": ("Has_Version", "H"), "best_version": ("Best_Version", "B"),
-    "eapply": ("Eapply", "E"),
+    "eapply": ("Eapply", "E"), "keepdir": ("Keepdir", "K"),
 }
+ENV_CMD = "c32env"     # pseudo-helper: the EBUILD changing the image between two helper calls
+STUB = ".keep_cat_pn-0"
 INSTALL_FAMILY = ("doexe", "dolib.so", "doins", "dodoc", "doinfo")
 K_MAKEDIRS, K_STAT, K_UNLINK, K_COPY, K_CHMOD = range(5)
 ERRNOS = (5, 13, 28)
@@ -415,6 +417,44 @@ class World:
                      domain=Domain(installed))
         self.helpers = {cmd: getattr(ebd_ipc, cls)(self.op) for cmd, (cls, _) in HELPERS.items()}
         self.op._ipc_helpers = self.helpers
+        ED = self.ED
+
+        class EnvCmd(ebd_ipc.IpcCommand):
+            """what an ebuild does between helper calls: rmtree/mkdir PATH, mkfile PATH CID (below ED)"""
+
+            def run(self, args):
+                op, rel = args[0], args[1]
+                p = os.path.join(ED, rel.strip("/"))
+                anc = os.path.dirname(p)
+                while len(anc) > len(ED):
+                    if os.path.lexists(anc) and not os.path.isdir(anc):
+                        if op != "rmtree":
+                            return          # a regular file sits on the way: nothing happens
+                    anc = os.path.dirname(anc)
+                if os.path.isdir(p) and not os.path.islink(p):
+                    if op != "mkdir":
+                        shutil.rmtree(p)
+                elif os.path.lexists(p):
+                    os.unlink(p)
+                if op == "mkdir":
+                    os.makedirs(p, exist_ok=True)
+                elif op == "mkfile":
+                    os.makedirs(os.path.dirname(p), exist_ok=True)
+                    with open(p, "w") as f:
+                        f.write(f"content-{args[2]}")
+
+        self.snaps = []          # the image after every request served (long-lived helper objects!)
+
+        def observed(h):
+            def call(ebd, *a):
+                try:
+                    return h(ebd, *a)
+                finally:
+                    self.snaps.append(snapshot(ED))
+            return call
+
+        self.handlers = {cmd: observed(h) for cmd, h in self.helpers.items()}
+        self.handlers[ENV_CMD] = observed(EnvCmd(self.op))
 
     def run(self, down):
         oracle = ExtOracle(self.plan, self.ebd_ipc.spawn.spawn_get_output, emulate_ok=not self.faults)
@@ -423,7 +463,7 @@ class World:
         old = os.umask(0o022)
         try:
             with Faults(self.top, self.faults):
-                wire, consumed, exc, shutdowns = run_stream(self.helpers, down, self.pkg)
+                wire, consumed, exc, shutdowns = run_stream(self.handlers, down, self.pkg)
         finally:
             os.umask(old)
             self.ebd_ipc.spawn.spawn_get_output = saved
@@ -453,7 +493,7 @@ class World:
         answers = list(self.oracle.answers) + [(0, [])] * len(self.oracle.plan)
         parts = [
             esc(self.ED), esc(self.src),
-            ";".join(f"{esc(cmd)}={code}" for cmd, (_, code) in HELPERS.items()),
+            ";".join([f"{esc(cmd)}={code}" for cmd, (_, code) in HELPERS.items()] + [ENV_CMD + "=V"]),
             ";".join(self._src_entries()),
             ";".join(esc(e.split("=")[0]) + "=" + e.split("=")[1].replace(",", ",") for e in self.pre),
             ";".join(",".join([str(st)] + [esc(l) for l in ls]) for st, ls in answers),
@@ -553,7 +593,10 @@ def gen_request(rng, w_plan, flavour):
         args = rng.sample(["/x/y", "z", "/usr/share/doc", "usr/a/b", "/usr", "/opt/q/r"], rng.randint(1, 3))
         if rng.random() < 0.08:
             args = []
-        return "dodir", nonfatal, quote_opts(opts), args
+        cmd = rng.choice(["dodir", "dodir", "keepdir"])
+        if cmd == "keepdir" and rng.random() < 0.1:
+            opts.append("--dest=/usr")        # the stub path ignores --dest
+        return cmd, nonfatal, quote_opts(opts), args
     if flavour == "recursive_fallback":
         # -r + a directory + options that force install(1): the directory walk has to go through the
         # installers selected for THIS request (install -d for the directory, install for its files)
@@ -627,6 +670,34 @@ def gen_request(rng, w_plan, flavour):
     return cmd, nonfatal, quote_opts(opts), args
 
 
+def env_request_for(rng, req):
+    """an image change aimed at something `req` (probably) created"""
+    cmd, _, opts, args = req
+    try:
+        toks = shlex.split(opts)
+    except ValueError:
+        return None
+    dest = "/"
+    for t in toks:
+        if t.startswith("--dest="):
+            dest = t[7:]
+    names = [a for a in args if a != "-r" and "\n" not in a and not a.startswith("-")]
+    if not names:
+        return None
+    a = rng.choice(names)
+    rel = os.path.normpath(os.path.join(dest.lstrip("/"), a.lstrip("/")))
+    if rel in (".", "") or rel.startswith(".."):
+        return None
+    comps_ = rel.split("/")
+    target = "/".join(comps_[: rng.randint(1, len(comps_))])
+    r = rng.random()
+    if r < 0.7:
+        return (ENV_CMD, True, "", ["rmtree", target])
+    if r < 0.85:
+        return (ENV_CMD, True, "", ["mkfile", target, "9"])
+    return (ENV_CMD, True, "", ["mkdir", target])
+
+
 def gen_session(rng, chk_scratch, idx):
     """build the scratch world + the request stream; -> (World, down bytes, meta)"""
     top = os.path.join(chk_scratch, f"w{idx}")
@@ -642,7 +713,20 @@ def gen_session(rng, chk_scratch, idx):
             [28, 10, 10, 13, 11, 4, 8, 8, 8])[0]
         flav_list.append(flavour)
         reqs.append(gen_request(rng, plan, flavour))
-    if rng.random() < 0.25:
+    env_used = False
+    if rng.random() < 0.22:
+        # the ebuild changes the image between two calls to the SAME long-lived helper object, then repeats
+        # the request: whatever the helper remembers from the first call must not make the reply untrue
+        cand = [j for j, r_ in enumerate(reqs) if r_[0] in INSTALL_FAMILY + ("dodir", "keepdir") and r_[3]]
+        if cand:
+            j = rng.choice(cand)
+            env = env_request_for(rng, reqs[j])
+            if env is not None:
+                again = reqs[j] if rng.random() < 0.8 else (reqs[j][0], True, reqs[j][2], reqs[j][3])
+                reqs[j + 1:j + 1] = [env, again]
+                flav_list[j + 1:j + 1] = ["env", "repeat"]
+                env_used = True
+    if rng.random() < 0.25 and not env_used:
         for _ in range(rng.randint(1, 2)):
             kind = rng.randrange(5)
             base = rng.choice({K_MAKEDIRS: ["usr", "share", "q", "y", "", "doc", "d"], K_STAT: ["a", "b", "c", "d"],
@@ -706,14 +790,39 @@ def session_oracle(w, meta, res):
     if not all(any(str(c) == got for got in it) for c in codes):
         out.append((None, {"what": "a failing external command's exit status is not the status of a reply",
                            "request": [list(r) for r in reqs], "external_statuses": codes, "wire": wire}))
-    img = dict(e.split("=", 1) for e in snap)
+    final = dict(e.split("=", 1) for e in snap)
+    per_request = len(w.snaps) >= len(lines)
     for idx, ((cmd, nonfatal, opts, args), line) in enumerate(zip(reqs, lines)):
-        later_names = {x for r_ in reqs[idx + 1:] for x in r_[3]}
+        # judged on the image as it was right AFTER this request (the helper objects live for the whole
+        # build, and the ebuild may change the image between two calls)
+        img = dict(e.split("=", 1) for e in w.snaps[idx]) if per_request else final
+        later_names = set() if per_request else {x for r_ in reqs[idx + 1:] for x in r_[3]}
         status = line.split("\x07", 1)[0]
         if not status.lstrip("-").isdigit():
             out.append((None, {"what": "reply without an integer status", "line": line}))
             continue
-        if cmd not in INSTALL_FAMILY or status != "0" or not w.image_comparable():
+        if cmd in ("dodir", "keepdir") and status == "0" and per_request:
+            try:
+                toks = shlex.split(opts)
+            except ValueError:
+                continue
+            dest = "/"
+            for t in toks:
+                if t.startswith("--dest="):
+                    dest = t[7:]
+            for a in args:
+                rel = os.path.normpath(os.path.join(dest.lstrip("/"), a.lstrip("/")))
+                if rel != "." and not str(img.get(rel, "")).startswith("d"):
+                    out.append((None, {"what": "status 0 but the requested directory does not exist",
+                                       "request": [list(r) for r in reqs[: idx + 1]], "missing": rel,
+                                       "found": img.get(rel)}))
+                if cmd == "keepdir":
+                    srel = os.path.normpath(os.path.join(a.lstrip("/"), STUB))
+                    if not str(img.get(srel, "")).startswith("f"):
+                        out.append((None, {"what": "status 0 but keepdir's stub file does not exist",
+                                           "request": [list(r) for r in reqs[: idx + 1]], "missing": srel}))
+            continue
+        if cmd not in INSTALL_FAMILY or status != "0" or not (w.image_comparable() or per_request):
             continue
         try:
             toks = shlex.split(opts)
@@ -749,7 +858,8 @@ def session_oracle(w, meta, res):
             if got is None or not got.startswith(f"f{v},"):
                 cls = "fallback-dest-is-directory" if (fallback and got is not None and got.startswith("d")) else None
                 out.append((cls, {"what": "status 0 but the file is not at its destination",
-                                  "request": [cmd, opts, args], "missing": rel, "found": got}))
+                                  "request": [cmd, opts, args], "history": [list(r) for r in reqs[: idx + 1]],
+                                  "missing": rel, "found": got}))
     return out
 
 
@@ -876,7 +986,7 @@ def bash_roundtrip(w, calls):
     old = os.umask(0o022)
     try:
         try:
-            ebd_mod.run_generic_phase(w.pkg, "install", {"T": None}, False, False, extra_handlers=w.helpers)
+            ebd_mod.run_generic_phase(w.pkg, "install", {"T": None}, False, False, extra_handlers=w.handlers)
         except BaseException as e:  # noqa: BLE001
             exc = e
     finally:
@@ -1002,14 +1112,6 @@ def main(chk: Check):
             prop_bad.append((cls, detail))
 
     t0 = time.time()
-    n_sess = int(chk.n(80, 600) * scale)
-    for i in range(n_sess):
-        w, down, meta = gen_session(rng, scratch, i)
-        try:
-            res = w.run(down)
-            add_session(w, down, meta, res)
-        finally:
-            shutil.rmtree(w.top, ignore_errors=True)
     # fixed sessions: the replayed defects (repaired ones must now be fine) and the known classes
     fixed = [
         # install(1) succeeds / fails: the status must follow (C33-install-fallback-status)
@@ -1026,6 +1128,22 @@ def main(chk: Check):
         # a fallback request must not make later plain requests of the same helper use install(1)
         ([], [("real",), ("say", 1, ["must not be asked"])],
          [("doexe", True, "--dest=/usr '--insoptions=-m a=r'", ["a"]), ("doexe", True, "--dest=/usr", ["b"])], None),
+        # state carried across calls on the long-lived helper objects: the ebuild removes what the first
+        # call created, the repeated call has to create it again (or fail truthfully)
+        ([], [], [("dodir", True, "", ["/x/y"]), (ENV_CMD, True, "", ["rmtree", "x"]), ("dodir", True, "", ["/x/y"])], None),
+        ([], [], [("dodir", True, "--diroptions=-m0700", ["/x/y", "z"]), (ENV_CMD, True, "", ["rmtree", "x/y"]),
+                  ("dodir", True, "--diroptions=-m0700", ["/x/y", "z"])], None),
+        ([], [], [("keepdir", True, "", ["/var/lib/foo"]), (ENV_CMD, True, "", ["rmtree", "var"]),
+                  ("keepdir", True, "", ["/var/lib/foo"])], None),
+        ([], [], [("doins", True, "--dest=/usr/share", ["a"]), (ENV_CMD, True, "", ["rmtree", "usr"]),
+                  ("doins", True, "--dest=/usr/share", ["a"])], None),
+        ([], [], [("doins", True, "--dest=/usr", ["-r", "dd"]), (ENV_CMD, True, "", ["rmtree", "usr/dd"]),
+                  ("doins", True, "--dest=/usr", ["-r", "dd"]), (ENV_CMD, True, "", ["mkfile", "usr/dd", "9"]),
+                  ("doins", True, "--dest=/usr", ["-r", "dd"])], None),
+        ([], [], [("dodir", True, "", ["/x/y"]), (ENV_CMD, True, "", ["mkfile", "x", "9"]), ("dodir", False, "", ["/x/y"])], None),
+        ([], [("emul",), ("emul",)],
+         [("doexe", True, "--dest=/usr '--insoptions=-m a=r'", ["a"]), (ENV_CMD, True, "", ["rmtree", "usr/a"]),
+          ("doexe", True, "--dest=/usr '--insoptions=-m a=r'", ["a"])], None),
         # -r + directory + fallback-forcing options: the walk must use install(1) too (status and mode)
         ([], [("real",), ("real",), ("real",)],
          [("doins", True, "--dest=/usr '--insoptions=-m u=rwx,go=rx'", ["-r", "dd", "a"])], None),
@@ -1058,6 +1176,14 @@ def main(chk: Check):
                 sess_meta.append((meta, res, down))
             else:
                 add_session(w, down, meta, res)
+        finally:
+            shutil.rmtree(w.top, ignore_errors=True)
+    n_sess = int(chk.n(80, 600) * scale)
+    for i in range(n_sess):
+        w, down, meta = gen_session(rng, scratch, i)
+        try:
+            res = w.run(down)
+            add_session(w, down, meta, res)
         finally:
             shutil.rmtree(w.top, ignore_errors=True)
     chk.count("sess", len(sess_cases))
